@@ -241,6 +241,11 @@ func (me *multiEndpoint) switchFromTo(f, t *endpoint) {
 		me.Lock()
 		defer me.Unlock()
 		if e, ok := me.endpoints[me.future]; ok && e.status == available {
+			if c, ok := me.endpoints[me.current]; ok && c.status != unavailable && c.priority < e.priority {
+				// Outdated switch: priorities changed since it was scheduled and
+				// the current endpoint is now preferred over the future one.
+				return
+			}
 			me.current = e.id
 		}
 	})
